@@ -216,10 +216,10 @@ Proof.
   destruct (wf_own _ W j i Hj Hi Hji E); congruence.
 Qed.
 
-Theorem grow_pend st o i : reachable st -> grows o i ->
+Theorem grow_pend st o i : wf st -> grows o i ->
   forall j, j <> i -> j < length (seqs st) -> pend (fst (step st o)) j = pend st j.
 Proof.
-  intros R G j Hji Hj. pose proof (reachable_wf st R) as W.
+  intros R G j Hji Hj. pose proof (ok_wf st R) as W.
   destruct o; simpl in G; try tauto; subst; simpl.
   - destruct (is_live st i) eqn:L; simpl; auto. apply is_live_lt in L.
     destruct e as [|z e]; [rewrite do_append_nil; auto|].
